@@ -21,7 +21,8 @@ Definition prop_c14 (c : case) : bool :=
   end.
 
 Definition verdict14 (c : case) : N :=
-  if skipped c then 8%N
+  (* the property is about the implementation's answer: it is evaluated where the model is silent too *)
+  if skipped c then (if prop_c14 c then 8%N else 2%N)
   else ((if model_agrees c then 0 else 1) + (if prop_c14 c then 0 else 2))%N.
 
 Fixpoint run_cases (i : N) (cs : list case) : list (N * N * N) :=
